@@ -144,6 +144,7 @@ Definition judge (f : bytes) (sv : slowview) (v : N) (f' : bytes) : option N := 
     if gone sv then Some 5
     else if negb (wellformed f') then Some 0
     else if negb (echoes f f') then Some 1
+    else if sv_kind sv =? 99 then None      (* harness-written maps: there is no userspace state to agree with *)
     else if negb (same_kind f' sv) then Some 2
     else if negb (same_fields f' sv) then Some 3
     else None
